@@ -50,7 +50,9 @@ Produce TWO independent changes touching different mechanisms, in `{wt}/seedA/` 
 * `demo.py` - a small self-contained program using pyxform's public API (e.g.
   `from pyxform.xls2xform import convert`; `convert(xlsform=<markdown str or dict of sheets>)`)
   that exits 0 on the unchanged tree and exits 1, printing what went wrong, with the change
-  applied. Run as `cd <tree> && /venv/bin/python seedA/demo.py`;
+  applied. Run as `cd <tree> && /venv/bin/python seedA/demo.py`; it MUST start with
+  `import os, sys; sys.path.insert(0, os.getcwd())` so that it imports the pyxform of the tree it is run from
+  (the venv's editable install otherwise resolves to /repo);
 * `meta.json` - {{"property": "{pid}", "summary": "...", "needs_to_manifest": "...",
   "files_changed": [...], "what_i_ran": "..."}}.
 
